@@ -381,6 +381,7 @@ def numeric_stream(ctx, stream, cases, impl_fn, line_fn, fields):
 def run(ctx):
     rng = ctx.rng
     ctx.lean = common.lean_check('C14')
+    common.run_regressions(ctx, 'C14', lambda r: recheck(r))
     quick = ctx.quick()
     N = 250 if quick else 2500
     corpus = common.load_corpus('C14')
@@ -481,3 +482,6 @@ def replay(obj):
     print('implementation returned:', common.canon_json(out))
     print('oracle:', why or 'ok')
     return 1 if why else 0
+
+
+recheck = common.recheck_via_replay(replay)
